@@ -51,7 +51,7 @@ ASSUMPTIONS = [
 REQUIRED_COUNTERS = [
     "template_yaml", "template_schema", "template_loads", "export_size", "parse_accepts", "reexport_identity",
     "config_roundtrip", "config_roundtrip_diff", "value_survives", "computed_inverse", "computed_seal",
-    "computed_rotkh", "xmcd_crc", "xmcd_verify", "cli_template", "partial_configs", "computed_inverse_partial",
+    "computed_rotkh", "xmcd_crc", "xmcd_verify", "cli_template", "partial_configs", "computed_inverse_partial", "cli_binary_roundtrips",
 ]
 # wall-clock guards only ever yield "inconclusive"; estimated for 16 idle cores: quick ~40 s (440 CPU-s), thorough ~9 min
 # (8 000 CPU-s) - but the machine is shared and a run has been seen to get 3 % of a core per worker
@@ -170,6 +170,8 @@ def cases(tier, seed):
     for kind in kinds:
         for k in range(N_CLI[tier]):
             yield {"op": "cli", "kind": kind, "k": k}
+    for k in range(8 if tier == "quick" else 80):
+        yield {"op": "cli_binary", "kind": "pfr", "k": k}
 
 
 def _modes(tier, kind):
@@ -927,9 +929,77 @@ def _tz_bytes_law(ctx, ad, inst, data: bytes, names, words, subset, defaults):
 
 
 # ------------------------------------------------------------------------------------------
+def _run_cli_binary(case, ctx):
+    """PFR / IFR through the tools: a page made from a drawn configuration -> ``parse-binary`` -> ``generate-binary`` gives
+    the page again - for ANY revision of the family (the register set of an older revision may differ from the latest)."""
+    import yaml
+    from click.testing import CliRunner
+    from spsdk.utils.database import get_db
+
+    ad = A.ADAPTERS["pfr"]
+    insts = [i for i in A.enumerate_all() if i["kind"] == "pfr"]
+    older = [i for i in insts if get_db(i["family"], "latest").name != i["revision"]]
+    # half of the draws: a revision whose register specification is not the one of the latest revision
+    differing = [i for i in older if ad.spec_files(i) != ad.spec_files(dict(i, revision="latest"))]
+    inst = dict(core.pick(ctx.rng, differing if (differing and case["k"] % 2 == 0) else insts))
+    inst["_mode"] = "cli-binary"
+    outdir = os.path.join(ctx.workdir, f"clibin_{os.getpid()}_{case['k']}")
+    os.makedirs(outdir, exist_ok=True)
+    ok, text = _try(ctx, ad, inst, "template", ad.template, inst)
+    if not ok:
+        return
+    cfg = _fast_yaml(text)
+    fresh = ad.fresh(inst)
+    settings, _expect = _draw(ad.registers(fresh), ctx.rng, "random", 0, ad.frozen_fields(inst))
+    cfg[ad.settings_key].update(settings)
+    ok, x = _try(ctx, ad, inst, "load", ad.load, inst, cfg)
+    if not ok:
+        return
+    ok, page = _try(ctx, ad, inst, "export", ad.export, x)
+    if not ok:
+        return
+    binp, ymlp, outp = (os.path.join(outdir, n) for n in ("page.bin", "parsed.yaml", "again.bin"))
+    with open(binp, "wb") as f:
+        f.write(page)
+    ifr = inst["sub"] in ("romcfg", "cmactable")
+    main = ad.cli_main(inst)
+    area = ["-s", {"romcfg": "ROMCFG", "cmactable": "CMACTable"}[inst["sub"]]] if ifr else ["-t", inst["sub"]]
+    a1 = ["parse-binary", "-f", inst["family"], "-r", inst["revision"]] + area + ["-b", binp, "-o", ymlp]
+    res = CliRunner().invoke(main, a1)
+    ctx.count("cli_binary_roundtrips")
+    detail = {"instance": ad.label(inst), "args": a1[:8]}
+    if res.exit_code != 0 or not os.path.isfile(ymlp):
+        exc = res.exception if isinstance(res.exception, Exception) else None
+        if exc is not None and not core.is_refusal(exc) and core.origin_of(exc) != "repo":
+            raise exc
+        _viol(ctx, ad, inst, "cli-parse-binary-fails", dict(detail, exit_code=res.exit_code, output=res.output[-300:],
+                                                            exception=core.exc_brief(exc) if exc else None))
+        return
+    # (--ignore: the brick-condition rules of `pfr` judge the VALUES, which are random here; they are not C12's subject)
+    a2 = ["generate-binary"] + (["-f", inst["family"], "-r", inst["revision"]] if ifr else ["--ignore"]) + ["-c", ymlp, "-o", outp]
+    res = CliRunner().invoke(main, a2)
+    if res.exit_code != 0 or not os.path.isfile(outp):
+        exc = res.exception if isinstance(res.exception, Exception) else None
+        if exc is not None and not core.is_refusal(exc) and core.origin_of(exc) != "repo":
+            raise exc
+        _viol(ctx, ad, inst, "cli-generate-binary-refuses-parsed-configuration", dict(detail, args2=a2[:6], exit_code=res.exit_code,
+                                                                                    output=res.output[-300:], exception=core.exc_brief(exc) if exc else None))
+        return
+    with open(outp, "rb") as f:
+        again = f.read()
+    if again != page:
+        _viol(ctx, ad, inst, "cli-binary-roundtrip-differs", dict(detail, diff=_first_diff(page, again)))
+        return
+    parsed_cfg = yaml.safe_load(open(ymlp, encoding="utf-8"))
+    ctx.ok(["cli-binary", inst["sub"], "older-revision" if inst in older or get_db(inst["family"], "latest").name != inst["revision"] else "latest"],
+           sample={"instance": ad.label(inst), "registers_in_parsed_configuration": len(parsed_cfg.get(ad.settings_key, {}))})
+
+
 def run_case(case, ctx):
     if case["op"] == "cli":
         return _run_cli(case, ctx)
+    if case["op"] == "cli_binary":
+        return _run_cli_binary(case, ctx)
     inst = dict(case)
     ad = A.ADAPTERS[inst["kind"]]
     rng = ctx.rng
